@@ -141,6 +141,54 @@ theorem C03_drop_remainder {α} (bs : Nat) (hbs : 0 < bs) (xs : List α) :
     have := (full_iff xs.length bs i hbs).mpr hi
     omega
 
+/-- When the batch size divides the dataset size there is no remainder to drop: `drop_remainder=True`
+and `False` give the same batches. -/
+theorem C03_drop_remainder_exact {α} (bs : Nat) (hbs : 0 < bs) (xs : List α)
+    (hdiv : xs.length % bs = 0) :
+    batchView bs true xs = batchView bs false xs := by
+  rw [(C03_drop_remainder bs hbs xs).1]
+  apply List.take_of_length_le
+  rw [(C03_sizes bs hbs xs).1]
+  have h1 := Nat.div_add_mod xs.length bs
+  rw [hdiv, Nat.add_zero] at h1
+  have : (xs.length + bs - 1) / bs ≤ xs.length / bs := by
+    rw [Nat.div_le_iff_le_mul_add_pred hbs]
+    rw [Nat.mul_comm] at h1
+    have h2 : bs * (xs.length / bs) = xs.length := by rw [Nat.mul_comm]; exact h1
+    omega
+  exact this
+
+/-- No batch is empty (plain mode), and the empty dataset has no batches. -/
+theorem C03_no_empty_batch {α} (bs : Nat) (hbs : 0 < bs) (xs : List α) :
+    (∀ b ∈ batchView bs false xs, 1 ≤ b.length ∧ b.length ≤ bs) ∧
+    (batchView bs false xs = [] ↔ xs = []) := by
+  obtain ⟨hlen, hfull, hlast⟩ := C03_sizes bs hbs xs
+  constructor
+  · intro b hb
+    rcases List.eq_nil_or_concat (batchView bs false xs) with hnil | ⟨init, lst, hcat⟩
+    · rw [hnil] at hb; simp at hb
+    · have hdl : (batchView bs false xs).dropLast = init := by rw [hcat]; simp
+      have hgl : (batchView bs false xs).getLast? = some lst := by rw [hcat]; simp
+      rw [hcat, List.concat_eq_append] at hb
+      rcases List.mem_append.mp hb with hi | hl
+      · have := hfull b (by rw [hdl]; exact hi)
+        omega
+      · have : b = lst := by simpa using hl
+        subst this
+        exact hlast b hgl
+  · constructor
+    · intro h
+      have h0 : (batchView bs false xs).flatten = xs := C03_concat bs hbs xs
+      rw [h] at h0
+      simpa using h0.symm
+    · intro h
+      subst h
+      have : (batchView bs false ([] : List α)).length = 0 := by
+        rw [(C03_sizes bs hbs ([] : List α)).1]
+        simp only [List.length_nil, Nat.zero_add]
+        exact Nat.div_eq_of_lt (by omega)
+      exact List.length_eq_zero_iff.mp this
+
 /-- Batching commutes with any per-example preprocessor. -/
 theorem C03_preprocess {α β} (g : α → β) (bs : Nat) (hbs : 0 < bs) (d : Bool) (xs : List α) :
     (batchView bs d xs).map (List.map g) = batchView bs d (xs.map g) := by
